@@ -161,8 +161,8 @@ def drive(ctx, strategy, body, max_examples, salt=0, shrink=None, max_roots=4, s
         except Exception as e:   # hypothesis wraps in some cases (Flaky etc.)
             v = last.get("v")
             if v is None:
-                ctx.harness_errors.append("driver: " + "".join(traceback.format_exception_only(type(e), e))[-1500:]
-                                          + "".join(traceback.format_tb(e.__traceback__)[-6:]))
+                ctx.harness_errors.append("driver: %s: %s\n%s" % (type(e).__name__, str(e)[:300],
+                                          "".join(traceback.format_tb(e.__traceback__)[-6:])[-1800:]))
                 break
         ctx.violations.append({"sig": v.sig, "detail": v.detail, "case": v.case})
         ctx.ignore_sigs.add(v.sig)
